@@ -876,6 +876,117 @@ theorem f50F_reproduces (s : Text) (v : F50F) (h : F50F.parse s = .ok v) : F50F.
 
 theorem stable_50F : Stable F50F.parse F50F.ser := stable_of_reproduces _ _ f50F_reproduces
 
+/-! ### 23: the number of days is written with two digits again (`USD07NOTICE`) -/
+
+theorem pad2_digits {a b : Char} {x y : Nat} (ha : digitVal a = some x) (hb : digitVal b = some y) :
+    padLeft (natDigits (10 * x + y)) 2 = [a, b] := by
+  have hx := C11.digitVal_lt ha
+  have hy := C11.digitVal_lt hb
+  by_cases h0 : x = 0
+  · subst h0
+    simp only [Nat.mul_zero, Nat.zero_add]
+    rw [natDigits_of_digitVal hb]
+    have : a = '0' := by
+      have := C11.digitChar_digitVal ha
+      rw [← this]; rfl
+    subst this
+    rfl
+  · have hge : ¬ (10 * x + y < 10) := by omega
+    unfold natDigits
+    simp only [hge, dif_neg, not_false_eq_true]
+    have e1 : (10 * x + y) / 10 = x := by omega
+    have e2 : (10 * x + y) % 10 = y := by omega
+    rw [e1, e2, natDigits_of_digitVal ha, C11.digitChar_digitVal hb]
+    rfl
+
+/-- 23 `3!a[2!n]11x` -/
+theorem f23_reproduces (s : Text) (v : F23) (h : F23.parse s = .ok v) : F23.ser v = s := by
+  unfold F23.parse at h
+  split at h; · cases h
+  rename_i hasc
+  split at h; · cases h
+  rename_i hlen
+  have ha : isAsciiT s = true := by simpa using hasc
+  have hb := blen_ascii s ha
+  have hl : 4 ≤ s.length := by
+    have : ¬ blen s < 4 := by simpa using hlen
+    omega
+  rw [bslice_ascii s 0 3 ha (by omega) (by omega)] at h
+  simp only [Res.bind_ok] at h
+  obtain ⟨_, _, h⟩ := bind_ok_inv h
+  have tail3 : ∀ (days : Option Nat) (w : F23),
+      (if blen s > 3 then (do
+          let r ← bfrom s 3
+          if blen r > 11 then Res.err else do
+          parseSwiftChars r
+          pure (⟨(s.drop 0).take (3 - 0), days, r⟩ : F23))
+        else Res.err) = .ok w → w = ⟨s.take 3, days, s.drop 3⟩ := by
+    intro days w hw
+    split at hw
+    · rw [bfrom_ascii s 3 ha (by omega)] at hw
+      simp only [Res.bind_ok] at hw
+      split at hw; · cases hw
+      obtain ⟨_, _, hw⟩ := bind_ok_inv hw
+      cases hw; simp
+    · cases hw
+  have tail5 : ∀ (days : Option Nat) (w : F23), 5 ≤ s.length →
+      (if blen s > 5 then (do
+          let r ← bfrom s 5
+          if blen r > 11 then Res.err else do
+          parseSwiftChars r
+          pure (⟨(s.drop 0).take (3 - 0), days, r⟩ : F23))
+        else Res.err) = .ok w → w = ⟨s.take 3, days, s.drop 5⟩ := by
+    intro days w h5 hw
+    split at hw
+    · rw [bfrom_ascii s 5 ha (by omega)] at hw
+      simp only [Res.bind_ok] at hw
+      split at hw; · cases hw
+      obtain ⟨_, _, hw⟩ := bind_ok_inv hw
+      cases hw; simp
+    · cases hw
+  have none_case : ∀ w : F23, w = ⟨s.take 3, none, s.drop 3⟩ → F23.ser w = s := by
+    intro w hw; subst hw
+    unfold F23.ser; simp
+  split at h
+  · rename_i h5
+    have hl5 : 5 ≤ s.length := by omega
+    rw [bslice_ascii s 3 5 ha (by omega) (by omega)] at h
+    simp only [Res.bind_ok] at h
+    split at h
+    · split at h; · simp at h
+      rename_i hdig
+      split at h; · simp at h
+      simp only [Res.pure_eq, Res.bind_ok] at h
+      have hw := tail5 _ v hl5 h
+      subst hw
+      -- the two digits
+      have hpd : ∃ a b, (s.drop 3).take (5 - 3) = [a, b] := by
+        have hlen2 : ((s.drop 3).take (5 - 3)).length = 2 := by simp [List.length_take, List.length_drop]; omega
+        match hq : (s.drop 3).take (5 - 3), hlen2 with
+        | [a, b], _ => exact ⟨a, b, rfl⟩
+      obtain ⟨a, b, hab⟩ := hpd
+      have hd2 : ([a, b] : Text).all Char.isDigit = true := by
+        have : ¬ ((!((s.drop 3).take (5 - 3)).all Char.isDigit || ((s.drop 3).take (5 - 3)).isEmpty) = true) := hdig
+        rw [hab] at this; simpa using this
+      simp only [List.all_cons, List.all_nil, Bool.and_true, Bool.and_eq_true] at hd2
+      obtain ⟨x, hx⟩ := digitVal_of_isDigit hd2.1
+      obtain ⟨y, hy⟩ := digitVal_of_isDigit hd2.2
+      unfold F23.ser
+      simp only [hab, digitsVal_two hx hy, pad2_digits hx hy]
+      have e35 : s.drop 3 = [a, b] ++ s.drop 5 := by
+        have := List.take_append_drop 2 (s.drop 3)
+        rw [List.drop_drop] at this
+        have h2 : (s.drop 3).take 2 = [a, b] := by simpa using hab
+        rw [h2] at this; simpa using this.symm
+      calc s.take 3 ++ [a, b] ++ s.drop 5 = s.take 3 ++ ([a, b] ++ s.drop 5) := by simp
+        _ = s.take 3 ++ s.drop 3 := by rw [← e35]
+        _ = s := List.take_append_drop 3 s
+    · simp only [Res.pure_eq, Res.bind_ok] at h
+      exact none_case v (tail3 _ v h)
+  · simp only [Res.pure_eq, Res.bind_ok] at h
+    exact none_case v (tail3 _ v h)
+theorem stable_23 : Stable F23.parse F23.ser := stable_of_reproduces _ _ f23_reproduces
+
 /-! ### Message level: what the serialisers write is read back exactly
 
 `to_mt_string` writes every field as `:tag:content` followed by CRLF and drops the last CRLF (`append_field`,
